@@ -257,7 +257,7 @@ let () =
           (match cs with
            | None -> Printf.printf "%s P err\n" id
            | Some cs -> print_plan id (planChanges fx tx cs))
-        | ("sup", "E") ->
+        | ("sup", "E") | ("sup", "X") ->
           (* not a correspondence mode: is the case inside the domain of theorem C01_converges_rows ? *)
           let fk = next_bool () in
           let (_, a) = parse_xschema () in
@@ -275,10 +275,11 @@ let () =
           (match exec_all d0 setup with
            | Err _ -> Printf.printf "%s SUP setup-err\n" id
            | Ok d1 ->
-             Printf.printf "%s SUP db=%s desired=%s compat=%s all=%s syntactic=%s feature=%s\n" id (b01 (db_ok_b d1))
+             Printf.printf "%s SUP db=%s desired=%s compat=%s all=%s syntactic=%s feature=%s stable=%s exported=%s\n" id (b01 (db_ok_b d1))
                (b01 (Stdlib.List.for_all desired_ok_b bx)) (b01 (compatible_b d1 bx)) (b01 (supported d1 bx))
-               (b01 (Stdlib.List.for_all desired_syntactic_b bx)) (b01 (in_feature_set d1 bx)))
-        | ("engine", "E") | ("updown", "U") ->
+               (b01 (Stdlib.List.for_all desired_syntactic_b bx)) (b01 (in_feature_set d1 bx))
+               (b01 (stable_b bx)) (b01 (supported_exported d1 bx)))
+        | ("engine", "E") | ("updown", "U") | ("exported", "X") ->
           let fk = next_bool () in
           let (n1, a) = parse_xschema () in
           (* setup: CREATE TABLE (with inline uniques) + CREATE INDEX per table, in order *)
@@ -316,6 +317,10 @@ let () =
                   (match e with
                    | None -> Printf.printf "%s AP ok\n" id
                    | Some _ -> Printf.printf "%s AP err@%d\n" id (int_of_nat kk));
+                  (* exported: the desired graph after diff + plan = [nrm] (Normalize / addIndexes rename in place) *)
+                  if mode = "exported" then
+                    Printf.printf "%s NB %s\n" id (String.concat ";" (Stdlib.List.map (fun (x : xtable) ->
+                      hexb x.x_t.t_name ^ ":" ^ String.concat "," (Stdlib.List.map (fun i -> hexb i.i_name) x.x_t.t_idx)) (nrm bx)));
                   let ib = inspect d2 in
                   Printf.printf "%s I1 %s\n" id (tok_xschema ib);
                   Printf.printf "%s R1 %s\n" id (show_rows d2);
